@@ -1310,9 +1310,15 @@ class LifeTransport:
 
 
 class Life:
-    """one execution.  cfg: dict(masters=[[layout, ...], ...], counter0=int,
-    horizon=int, script={step: [(action, master, group)]}, alphabet=str of
-    event letters the explorer may deviate with, domain=[slot numbers])"""
+    """one execution.  cfg: dict(masters=[[layout, ...], ...], counter0=int
+    (what an earlier group left in the loop counters), horizon=int (steps in
+    which deviations are allowed), script=[[step, "start"|"cancel", master,
+    group or None]], alphabet=letters of the deviations offered (T timer
+    first, D bus pass first, L losses, W wrong counter, C cancel, R
+    running=False), cost_W / cost_R, domain=[group numbers the random source
+    answers with]).  Steps: D one bus pass of the oldest frame, T jump to the
+    next timer; the default does LIFE_ROUNDS passes per frame in flight,
+    then T."""
 
     def __init__(self, ch, cfg):
         self.ch, self.cfg = ch, cfg
@@ -1324,7 +1330,7 @@ class Life:
         self.stepno = 0
         self.stats = dict(passes=0, enabled=0, handed_up=0, lost=0,
                           teardown_passes=0, wrong=0, dropped_up=0,
-                          collisions=0, timeouts=0)
+                          collisions=0)
         self.outcomes = set()
         self.nrand = 0
 
